@@ -10,12 +10,15 @@ from vlib.common import PROVED, REFUTED, UNKNOWN
 
 _API = re.compile(r"^readoptions\.(ParquetFile\.|_pre_allocate->|sorted_partitioned_columns->|filter_row_groups->)")
 SELECT = {
-    "C06": lambda n: _API.search(n) is not None,
-    "C03": lambda n: _API.search(n) is None and "->_assemble_objects" not in n,
-    "C13": lambda n: re.search(r"passes\[(row_filter|filters)\]$", n) is not None,
+    "C06": lambda n: _API.search(n) is not None and "_not_rebound" not in n or n.startswith("readoptions.ParquetFile.") and "_not_rebound" in n
+    or "selfmade_is_created_by" in n,
+    "C03": lambda n: (_API.search(n) is None or "_not_rebound" in n and not n.startswith("readoptions.ParquetFile.")) and "->_assemble_objects" not in n,
+    "C13": lambda n: re.search(r"passes\[(row_filter|filters)\]$|^readoptions\.(read_col|read_data_page|read_data_page_v2|read_row_group|read_row_group_arrays)\.\w+_not_rebound$", n) is not None,
     "C15": lambda n: "->_assemble_objects" in n,
     "C17": lambda n: re.search(r"^readoptions\.(ParquetFile\._dtypes->|ParquetFile\.pre_allocate->|_pre_allocate->)|->pre_allocate\.", n) is not None,
     "C14": lambda n: "__init__->metadata_from_many" in n,
+    # C12: own files never reach the > 24-bit path of read_bitpacked because `selfmade` arrives untouched at the page readers
+    "C12": lambda n: re.search(r"passes\[selfmade\]$|\.selfmade_not_rebound$|selfmade_is_created_by_fastparquet$", n) is not None,
 }
 # the v2 kernel site passes null=True, null_val=False: recorded finding of C15 (contracts/c15_assembly.py derives the same symbolically)
 KNOWN = {"C15": [(M.FID_V2NULL, re.compile(r"^readoptions\.read_data_page_v2->_assemble_objects\.passes\[(null|null_val)\]$"))]}
